@@ -117,7 +117,7 @@ pub fn op_strategy(kind: Kind, a: u16, cap: usize, p: &Profile) -> BoxedStrategy
             ]
             .boxed(),
         ));
-        v.push((p.w_resize, (minr..=maxr).prop_map(Op::Resize).boxed()));
+        v.push((p.w_resize, prop_oneof![30 => (minr..=maxr).prop_map(Op::Resize), 1 => (65533u16..=65535).prop_map(Op::Resize)].boxed()));
         v.push((
             p.w_or_put,
             prop_oneof![k().prop_map(Op::PeekOrPut), (k(), any::<bool>()).prop_map(|(k, w)| Op::PeekMutOrPut(k, w)), k().prop_map(Op::ContainsOrPut)].boxed(),
@@ -187,8 +187,15 @@ pub fn cfg_strategy(kind: Kind, p: &Profile) -> BoxedStrategy<Cfg> {
             .boxed(),
         Kind::TwoQ => small_cap(th)
             .prop_flat_map(move |a| {
-                let grs: Vec<f64> = RATIOS.iter().copied().filter(|g| (a as f64 * g).floor() >= 1.0).collect();
-                (Just(a), prop::sample::select(RATIOS.to_vec()), prop::sample::select(grs))
+                // ratios: the boundary grid, every q/size, every k/100 and arbitrary values
+                // (floor(size x ratio) is sensitive to the last bit of the product)
+                let mut all: Vec<f64> = RATIOS.to_vec();
+                all.extend((0..=a).map(|q| q as f64 / a as f64));
+                all.extend((0..=100).map(|k| k as f64 / 100.0));
+                let grs: Vec<f64> = all.iter().copied().filter(|g| (a as f64 * g).floor() >= 1.0).collect();
+                let any_r = || prop_oneof![3 => prop::sample::select(RATIOS.to_vec()), 2 => prop::sample::select(all.clone()), 1 => (0.0f64..1.0)];
+                let any_g = prop_oneof![3 => prop::sample::select(RATIOS.iter().copied().filter(|g| (a as f64 * g).floor() >= 1.0).collect::<Vec<_>>()), 2 => prop::sample::select(grs.clone()), 1 => if a > 1 { ((1.0 / a as f64)..1.0).boxed() } else { Just(1.0f64).boxed() }];
+                (Just(a), any_r(), any_g)
             })
             .prop_flat_map(move |(a, rr, gr)| (Just(a), Just(rr), Just(gr)))
             .prop_map(|(a, rr, gr)| {
